@@ -119,3 +119,10 @@ func VerifAddr2LineAddrInfo(rw *VerifRW, base, addr uint64) ([]plugin.Frame, err
 func VerifLLVMAddrInfo(rw *VerifRW, file string, base, addr uint64) ([]plugin.Frame, error) {
 	return (&llvmSymbolizer{filename: file, rw: rw, base: base}).addrInfo(addr)
 }
+
+// VerifOpenELFNM is VerifOpenELF for the nm flavour with the nm command given:
+// SourceLine then starts that command itself (newAddr2LinerNM unmodified).
+func VerifOpenELFNM(name, nm string, start, limit, offset uint64) (plugin.ObjFile, error) {
+	b := &binrep{fast: true, nm: nm, nmFound: true}
+	return b.openELF(name, start, limit, offset, "")
+}
